@@ -12,6 +12,7 @@ ID = "C16"
 LEVEL = "exploration"
 QUICK_SHARDS = 4
 MIN_NONTRIVIAL = 50
+FUZZ_RUNS = 120000     # thorough tier: atheris executions (all children)
 RULE = (
     "Family 1: pairs of same-class graphs (independent draws, renamed "
     "single-feature mutants, reaction vs its reverse; up to 30 atoms) whose "
@@ -253,7 +254,7 @@ def run(ctx):
                   f"src:{case['src']}"])
         check_case(ctx, case)
 
-    ctx.hyp("c16-f1", S.tapes(1200).map(gen1), check1,
+    ctx.hyp("c16-f1", S.mapped(1200, gen1), check1,
             ctx.scale(7000, 300000), shrinker=shrink)
 
     def check2(case):
@@ -270,5 +271,5 @@ def run(ctx):
                               f"n:{min(len(ma.atoms), 30)//5*5}+"])
         check_case(ctx, case)
 
-    ctx.hyp("c16-f2", S.tapes(1200).map(gen2), check2,
+    ctx.hyp("c16-f2", S.mapped(1200, gen2), check2,
             ctx.scale(3000, 120000), shrinker=shrink)
